@@ -288,7 +288,9 @@ func runC13(c DiffCase, o *vk.Obs) string {
 		}
 	}
 	o.ClassIf(shared, "arguments_share_memory")
+	o.Step()
 	d := mdiff.New(L, R)
+	o.Step()
 	fail := func(stage, m string) string { return fmt.Sprintf("%s, after %s: %s", c, stage, m) }
 
 	// ---- after New -------------------------------------------------------------
